@@ -260,6 +260,8 @@ pub fn random_state_case<T: Sc>(rng: &mut Rng, thorough: bool, idx: usize) -> St
     let eps = match idx % 7 {
         0 => Some(T::of(1e-9)),
         1 => Some(T::of(-1e-9)),
+        // a generous user threshold (still far below the singular values of an ordinary basis)
+        3 if idx % 3 == 0 => Some(T::of(*rng.pick(&[1e-4, 1e-3]))),
         _ => None,
     };
     let init: Vec<T> = random_alpha(rng, recipe.p()).iter().map(|v| T::of(*v)).collect();
